@@ -548,6 +548,34 @@ struct runner
       case 2:
       case 3:
       {
+        // in a quarter of the cases the subtree is not a fresh root but a node that is still ATTACHED elsewhere: the first
+        // child of another root is moved from in place (push_back(std::move(child))).  What a moved-from node holds is not
+        // prescribed, but it is still listed by its parent - so its parent link still says so - until it is erased.
+        if (ra != rb && !model[rb].ch.empty() && g.chance(1, 4))
+        {
+          bool const back2 = op == 2;
+          T &src_parent = *real[rb];
+          T &src = *src_parent.begin();
+          M const moved = model[rb].ch.front();
+          vf::extend_case(" push_%s(%s,std::move(first child of r%zu)) erase(r%zu,0)", back2 ? "back" : "front", pstr(ra, pa).c_str(), rb, rb);
+          if (back2)
+          {
+            ta.push_back(std::move(src));
+            ma.ch.push_back(moved);
+          }
+          else
+          {
+            ta.push_front(std::move(src));
+            ma.ch.insert(ma.ch.begin(), moved);
+          }
+          if (!src.parent().has_value() || &src.parent().get_unsafe().get() != &src_parent)
+            fail("push-attached-node/moved-from-node-lost-its-parent-link", "the node moved from is still listed by r" + std::to_string(rb) + " but its parent() does not refer to it");
+          src_parent.erase(src_parent.begin());
+          model[rb].ch.erase(model[rb].ch.begin());
+          VF_COUNT("tree/op/push-attached-node");
+          opname = "push-attached-node";
+          break;
+        }
         auto sub = fresh_subtree();
         bool back = op == 2;
         vf::extend_case(" push_%s(%s,subtree%s)", back ? "back" : "front", pstr(ra, pa).c_str(), ser(sub.second).c_str());
